@@ -54,9 +54,10 @@ fn fast_gnp_random_graph_directed(
     let lp = (1.0 - edge_probability).ln();
     let mut v = 0;
     let mut edges = vec![];
+    let max_skip = max_skip(num_nodes);
     while v < num_nodes {
         let lr: f64 = (1.0_f64 - rng.gen::<f64>()).ln();
-        w = w + 1 + ((lr / lp) as i32);
+        w = w + 1 + ((lr / lp) as i32).min(max_skip);
         if v == w {
             w += 1;
         }
@@ -90,9 +91,10 @@ fn fast_gnp_random_graph_undirected(
     let lp = (1.0 - edge_probability).ln();
     let mut v = 1;
     let mut edges = vec![];
+    let max_skip = max_skip(num_nodes);
     while v < num_nodes {
         let lr: f64 = (1.0_f64 - rng.gen::<f64>()).ln();
-        w = w + 1 + ((lr / lp) as i32);
+        w = w + 1 + ((lr / lp) as i32).min(max_skip);
         while w >= v && v < num_nodes {
             w -= v;
             v += 1;
@@ -105,6 +107,13 @@ fn fast_gnp_random_graph_undirected(
         Err(e) => Err(e),
         Ok(_) => Ok(graph),
     }
+}
+
+/// A skip at least as long as the number of slots ends the generation whatever its
+/// exact length, so longer skips are capped; this keeps `w` from overflowing when
+/// the edge probability is tiny.
+fn max_skip(num_nodes: i32) -> i32 {
+    num_nodes.saturating_mul(num_nodes).min(i32::MAX / 2)
 }
 
 fn get_random_number_generator(seed: Option<u64>) -> Box<dyn RngCore> {
